@@ -40,6 +40,8 @@ def run(ctx):
     seipdv2(ctx, P)
     skesk(ctx, P)
     algorithm_tables(ctx, P)
+    from rules.tables import rfc_id_tables
+    rfc_id_tables(ctx, P, only=r'SymmetricKeyAlgorithm|AeadAlgorithm|HashAlgorithm|PublicKeyAlgorithm')
     secret_key_aead(ctx, P)
     s2k(ctx, P)
     mdc(ctx, P)
